@@ -44,7 +44,7 @@ Definition s_loop6 : pystr := [91;58;58;49;93].                   (* [::1] *)
 Definition s_ll4 : pystr := [49;54;57;46;50;53;52;46].            (* 169.254. *)
 Definition strip_port (h : pystr) : pystr :=
   match h with
-  | 91 :: _ => before_sep [93;58] h ++ (if contains [93] h then [93] else [])
+  | 91 :: _ => before_sep [93] h ++ (if contains [93] h then [93] else [])     (* "[v6]" with or without ":port" *)
   | _ => before_sep [58] h
   end.
 Definition good_location (loc : pystr) : bool :=
